@@ -17,6 +17,8 @@ Semantics assumed (each is listed in the evidence as an assumption):
     (CPython list iterator).
 """
 import ast
+import os
+import sys
 import hashlib
 import itertools
 from z3 import (And, Or, Not, Implies, If, ForAll, Exists, IntVal, RealVal, BoolVal, StringVal, ToReal, ToInt,
@@ -1869,11 +1871,29 @@ class VCGen:
             return True
         return False
 
+    def logging_args_safe(s, c, st):
+        """the arguments of a dropped logging call are still EVALUATED (on a copy of the state, their values unused): an argument that
+        can raise (a bad subscript, str + int) yields its safety obligation or makes the contract inapplicable"""
+        if s.specmode:
+            return
+        for a in c.args:
+            t = st.clone()
+            n0 = len(s.obligs)
+            try:
+                s.ev(a, t)
+            except Unsupported as e:
+                if os.environ.get('PYVC_DEBUG_LOGARGS'):
+                    print('LOGARG', s.cur['name'], ast.unparse(a)[:60], e, file=sys.stderr)
+                del s.obligs[n0:]
+                if 'coerce' in str(e) or 'operand' in str(e) or 'type mismatch' in str(e):
+                    raise Unsupported(f'logging argument {ast.unparse(a)[:40]!r} at line {c.lineno}: {e}')
+
     def st_Expr(s, n, st):
         c = n.value
         if isinstance(c, ast.Constant):
             return [st]
         if s.is_dropped_call(c):
+            s.logging_args_safe(c, st)
             return [st]
         if isinstance(c, ast.Call):
             if isinstance(c.func, ast.Attribute) and c.func.attr == 'append' and len(c.args) == 1 and isinstance(c.args[0], ast.Call) \
@@ -2925,6 +2945,11 @@ class VCGen:
         want = [p for p in c['params'] if p not in c.get('ghost_params', {})]
         if real != want:
             raise ContractError(f'{qual}: parameters {real} differ from the contract {want}')
+        # default values the contract relies on at call sites must be the defaults of the real function
+        code_defaults = dict(zip([a.arg for a in fn.args.args][len(fn.args.args) - len(fn.args.defaults):], fn.args.defaults))
+        for pn, dv in c.get('defaults', {}).items():
+            if pn not in code_defaults or ast.dump(s.parse(dv)) != ast.dump(code_defaults[pn]):
+                raise ContractError(f'{qual}: the contract assumes the default {pn}={dv}, the function has {ast.unparse(code_defaults[pn]) if pn in code_defaults else "none"}')
         for r in c.get('requires', []):
             s.assume(st, r)
         for a in c.get('use_axioms', []):
